@@ -332,6 +332,7 @@ func runCrash(cc crashCase) {
 		run.Case(id, fmt.Sprintf("K %s %s %d %d 0 %d %s", dm, oldTok, oldMode, steps, len(chunks), strings.Join(chunks, " ")),
 			fmt.Sprintf("STEPS %d DIR %s CFG %s TMP %s", nchain+4+len(chunks), obs.dirMode, obs.cfg, obs.tmp))
 		run.Count("crash:killed-before-" + rec.Calls[win[k]].Name)
+		run.Count("crash:judged-kills")
 		if done > 0 {
 			run.Nontrivial(fmt.Sprintf("K|%v|%v|%d", cc.Init, cc.Op, k))
 		}
